@@ -64,6 +64,8 @@ class RecApp(Application):
         self.unexpected_answers.append(m)
         self.h.log("handle_answer", app=self.tag, code=m.header.command_code, hbh=m.header.hop_by_hop_identifier,
                    e2e=m.header.end_to_end_identifier)
+        if getattr(self, "answer_raises", False):
+            raise RuntimeError("scripted handle_answer failure")
 
 
 class RecThreadingApp(ThreadingApplication):
@@ -96,6 +98,37 @@ class RecThreadingApp(ThreadingApplication):
         self.unexpected_answers.append(m)
         self.h.log("handle_answer", app=self.tag, code=m.header.command_code, hbh=m.header.hop_by_hop_identifier,
                    e2e=m.header.end_to_end_identifier)
+        if getattr(self, "answer_raises", False):
+            raise RuntimeError("scripted handle_answer failure")
+
+
+def app_request(app, dest_realm, timeout, result: dict, session="a;1"):
+    """Run Application.send_request in the calling thread; outcome recorded in `result`."""
+    from diameter.message.commands import CreditControlRequest
+    m = CreditControlRequest()
+    m.session_id = session
+    m.origin_host = app.node.origin_host.encode()
+    m.origin_realm = app.node.realm_name.encode()
+    m.destination_realm = dest_realm.encode()
+    m.service_context_id = "verif@example"
+    m.cc_request_type = 1
+    m.cc_request_number = 0
+    result["msg"] = m
+    app.h.log("send_request_call", app=app.tag, session=session)
+    try:
+        ans = app.send_request(m, timeout)
+        result["answer"] = ans
+        result["exc"] = None
+    except BaseException as e:
+        result["answer"] = None
+        result["exc"] = type(e).__name__
+    result["hbh"] = m.header.hop_by_hop_identifier
+    result["e2e"] = m.header.end_to_end_identifier
+    app.h.log("send_request_return", app=app.tag, session=session, exc=result["exc"],
+              hbh=result["hbh"], e2e=result["e2e"],
+              ans_hbh=getattr(getattr(result["answer"], "header", None), "hop_by_hop_identifier", None),
+              ans_e2e=getattr(getattr(result["answer"], "header", None), "end_to_end_identifier", None))
+    return result
 
 
 class World:
